@@ -412,6 +412,7 @@ def gen_timing_cases(rng, n):
         for comp in comps[:2] + [c.circuit_structure]:
             cases.append(('Composite_start_time', [comp]))
             cases.append(('Composite_duration', [comp]))
+            cases.append(('Composite_lead_and_span', [comp]))
             cases.append(('IDurationComponent_end_time', [comp]))
     return cases
 
